@@ -5,7 +5,7 @@
    [wf_env e] = the table of e is one of those five and the gas-table prices are positive; it holds
    of every environment [env_of cfg height ...] (C07_env_wf).  Statements only; proofs in Evm/InterpProofs*.v. *)
 From Coq Require Import ZArith List Bool.
-From AQ Require Import Evm.OpsModel Evm.Interp Evm.InterpProofs Evm.InterpProofs2 Evm.InterpProofs3 Evm.InterpProofsStatic.
+From AQ Require Import Evm.OpsModel Evm.Interp Evm.InterpProofs Evm.InterpProofs2 Evm.InterpProofs3 Evm.InterpProofsStatic Evm.InterpProofsMemInv Evm.InterpProofsPanic.
 Import ListNotations.
 Local Open Scope Z_scope.
 
@@ -127,6 +127,48 @@ Theorem C07_static_is_readonly_refuted :
   get_state demo_world 0xcc 1 = 5 /\ get_state (o_world o) 0xcc 1 = 0x2a.
 Proof. exact static_call_writes_between_hf5_and_hf7. Qed.
 Print Assumptions C07_static_is_readonly_refuted.
+
+(* (6) memory: along the run of every frame (frame_reach = the iterations of the loop of Interpreter.Run
+   starting from the fresh frame that Call/CallCode/DelegateCall/StaticCall/Create build; nested frames
+   start the same way), whatever the code, the memory held is a whole number w of 32-byte words and
+   Gmemory*w + w^2/512 <= the gas the frame has spent so far.  Premise gas < 2^32 (any block gas limit is far
+   below): above 2^32 words the uint64 square of memoryGasCost wraps (C08: memoryGasCost_refuted).  Uses,
+   from the regenerated tables: every instruction with a memorySize function has a gas function that charges
+   memoryGasCost (InterpProofsMemInv.tables_mem_ok). *)
+Theorem C07_memory_bounded : forall fuel e code input self caller value gas ro depth tr w0 w fr,
+  wf_env e -> 0 <= gas < 2^32 -> 1 <= depth <= CallCreateDepth + 1 ->
+  frame_reach (interp fuel e) e w0 (new_frame code input self caller value gas ro depth tr) w fr ->
+  exists words, 0 <= words /\ blen (f_mem fr) = 32 * words /\
+                3 * words + words * words / 512 <= gas - f_gas fr.
+Proof. exact memory_bounded. Qed.
+Print Assumptions C07_memory_bounded.
+
+(* "never crashes".  Full statement (NOT proved):
+     forall fuel e w caller addr input gas value, wf_env e -> 0 <= gas < 2^32 ->
+       o_res (call_top fuel e w caller addr input gas value) <> R_panic          (and the same for create_top).
+   (It is false without a bound on the gas: with about 4.6e17 gas bigModExp may be asked for a 2^60-byte
+   exponent with a 1-byte modulus, and getData's make() panics; no block can hold that gas.)
+   Proved part (_partial): in an iteration of the loop nothing BEFORE operation.execute can panic — table
+   lookup, validateStack, enforceRestrictions, the memorySize function and its overflow checks, the gas
+   function: every stack index they read is covered by the arity validateStack checked, on the regenerated
+   tables (InterpProofsPanic.tables_arity_ok).  Missing: the execute functions themselves — that the memory
+   Run resized covers every Memory.Get/Set/GetPtr an instruction makes (from mem_size_big and the
+   0xffffffffe0 bound of memoryGasCost), that each instruction's stack shape fits its arity, that
+   bigModExp's buffers stay below the allocator's limit for gas < 2^32, and the induction over nested frames.
+   On the implementation this is covered by the recover()/child-process oracle on every case, incl. the
+   (offset, length) lattice for every such instruction. *)
+Theorem C07_run_never_panics_partial : forall rec e w fr o, wf_env e ->
+  (forall w1 fr1 x temp, exec rec e w1 fr1 x temp <> X_panic) ->
+  step rec e w fr = S_done o -> o_res o <> R_panic.
+Proof. exact step_panics_only_in_execute. Qed.
+Print Assumptions C07_run_never_panics_partial.
+
+Example C07_memory_nonvacuous : exists w fr,
+  frame_reach (interp 10 (demo_env 40000)) (demo_env 40000) demo_world
+              (new_frame [0x60;1;0x60;0;0x52;0] [] 0xbb 0xaa 0 100000 false 1 []) w fr /\
+  blen (f_mem fr) = 32 /\ f_gas fr = 100000 - 12.
+Proof. exact mem_reach_nonvacuous. Qed.
+Print Assumptions C07_memory_nonvacuous.
 
 (* non-vacuity: the same program at height 40000 (Byzantium rules on): wf_env holds, the run ends
    normally within the fuel, and the static frame could not write *)
